@@ -2349,7 +2349,7 @@ func parseOptions(index *int, opts *Options, allArgs []string) error {
 		case "--no-force-tty-in":
 			opts.ForceTtyIn = false
 		case "--proxy-script":
-			if opts.ProxyScript, err = nextString(""); err != nil {
+			if opts.ProxyScript, err = nextString("proxy script required"); err != nil {
 				return err
 			}
 		case "-x", "--extended":
